@@ -68,28 +68,52 @@ Section Gen.
         end
     end.
 
-  Fixpoint item_to_xml (fuel : nat) (d : dnode) (g : gstate) {struct fuel} : R (xml * gstate) :=
-    match fuel with
-    | O => ErrR E_FUEL
-    | S f =>
-      let items :=
-        (fix go (l : list dnode) (g : gstate) : R (list xml * gstate) :=
-           match l with
-           | [] => OkR ([], g)
-           | x :: r => do '(x', g1) <- item_to_xml f x g; do '(r', g2) <- go r g1; OkR (x' :: r', g2)
-           end) in
-      let kids_of (ch : option (list dnode)) := match ch with Some l => l | None => [] end in
-      let attrs_of (a : option (list (str * str))) := match a with Some l => l | None => [] end in
-      (* add_num_heading_subheading *)
-      let pre (num : option str) (h sh : option (list dnode)) (g : gstate) : R (list xml * gstate) :=
-        do n <- match truthy_str num with Some n => do e <- mk_elem (S_ "num") [] [Tx n]; OkR [e] | None => OkR [] end;
-        do '(hx, g1) <- match truthy_l h with
-                        | Some l => do '(k, g1) <- items l g; do e <- mk_elem (S_ "heading") [] k; OkR ([e], g1)
-                        | None => OkR ([], g) end;
-        do '(sx, g2) <- match truthy_l sh with
-                        | Some l => do '(k, g2) <- items l g1; do e <- mk_elem (S_ "subheading") [] k; OkR ([e], g2)
-                        | None => OkR ([], g1) end;
-        OkR (n ++ hx ++ sx, g2) in
+  (* open recursion: rec is item_to_xml at smaller fuel *)
+  Section OpenGen.
+    Variable rec : dnode -> gstate -> R (xml * gstate).
+
+    Fixpoint items (l : list dnode) (g : gstate) : R (list xml * gstate) :=
+      match l with
+      | [] => OkR ([], g)
+      | x :: r => do '(x', g1) <- rec x g; do '(r', g2) <- items r g1; OkR (x' :: r', g2)
+      end.
+
+    Definition kids_of (ch : option (list dnode)) : list dnode := match ch with Some l => l | None => [] end.
+    Definition attrs_of (a : option (list (str * str))) : list (str * str) := match a with Some l => l | None => [] end.
+
+    (* an optional wrapper element around a list of items: heading, subheading, from *)
+    Definition wrapped (tag : str) (o : option (list dnode)) (g : gstate) : R (list xml * gstate) :=
+      match o with
+      | Some l => do '(k, g1) <- items l g; do e <- mk_elem tag [] k; OkR ([e], g1)
+      | None => OkR ([], g)
+      end.
+
+    (* add_num_heading_subheading *)
+    Definition pre (num : option str) (h sh : option (list dnode)) (g : gstate) : R (list xml * gstate) :=
+      do n <- match truthy_str num with Some n => do e <- mk_elem (S_ "num") [] [Tx n]; OkR [e] | None => OkR [] end;
+      do '(hx, g1) <- wrapped (S_ "heading") (truthy_l h) g;
+      do '(sx, g2) <- wrapped (S_ "subheading") (truthy_l sh) g1;
+      OkR (n ++ hx ++ sx, g2).
+
+    (* the groups of a hier element with mixed children: intro / hier as they are / hcontainer / wrapUp *)
+    Fixpoint hier_groups (n : nat) (gs : list (bool * list dnode)) (i : nat) (seen : bool) (g : gstate)
+      : R (list xml * gstate) :=
+      match gs with
+      | [] => OkR ([], g)
+      | (is_hier, grp) :: r =>
+          do '(k, g1) <- items grp g;
+          do '(here, seen') <-
+            (if is_hier then OkR (k, true)
+             else if seen then
+               if Nat.eqb i (n - 1) then do e <- mk_elem (S_ "wrapUp") [] k; OkR ([e], seen)
+               else do c <- mk_elem (S_ "content") [] k;
+                    do e <- mk_elem (S_ "hcontainer") [(S_ "name", S_ "hcontainer")] [c]; OkR ([e], seen)
+             else do e <- mk_elem (S_ "intro") [] k; OkR ([e], seen));
+          do '(rest, g2) <- hier_groups n r (S i) seen' g1;
+          OkR (here ++ rest, g2)
+      end.
+
+    Definition item_body (d : dnode) (g : gstate) : R (xml * gstate) :=
       match d with
       | DText v => OkR (Tx v, g)
       | DNode kind name attribs att_attribs num h sh fr ch =>
@@ -97,26 +121,11 @@ Section Gen.
             let children := kids_of ch in
             do flags <- mapR (fun k => do b <- is_hier_child k; OkR (b, k)) children;
             do '(kids, g1) <-
-              (if forallb (fun bk => negb (fst bk)) flags then
+              (if forallb (fun bk : bool * dnode => negb (fst bk)) flags then
                  do '(k, g1) <- items children g; do c <- mk_elem (S_ "content") [] k; OkR ([c], g1)
                else
                  let groups := group_flags flags in
-                 let n := length groups in
-                 (fix go (gs : list (bool * list dnode)) (i : nat) (seen : bool) (g : gstate) : R (list xml * gstate) :=
-                    match gs with
-                    | [] => OkR ([], g)
-                    | (is_hier, grp) :: r =>
-                        do '(k, g1) <- items grp g;
-                        do '(here, seen') <-
-                          (if is_hier then OkR (k, true)
-                           else if seen then
-                             if Nat.eqb i (n - 1) then do e <- mk_elem (S_ "wrapUp") [] k; OkR ([e], seen)
-                             else do c <- mk_elem (S_ "content") [] k;
-                                  do e <- mk_elem (S_ "hcontainer") [(S_ "name", S_ "hcontainer")] [c]; OkR ([e], seen)
-                           else do e <- mk_elem (S_ "intro") [] k; OkR ([e], seen));
-                        do '(rest, g2) <- go r (S i) seen' g1;
-                        OkR (here ++ rest, g2)
-                    end) groups 0%nat false g);
+                 hier_groups (length groups) groups 0%nat false g);
             do '(p, g2) <- pre num h sh g1;
             do e <- mk_elem name (attrs_of attribs) (p ++ kids); OkR (e, g2)
           else if str_eqb kind (S_ "block") then
@@ -126,9 +135,7 @@ Section Gen.
             do e <- mk_elem name (attrs_of attribs) kids; OkR (e, g2)
           else if str_eqb kind (S_ "speechhier") then
             do '(p, g1) <- pre num h sh g;
-            do '(frx, g2) <- match fr with
-                             | Some l => do '(k, g2) <- items l g1; do e <- mk_elem (S_ "from") [] k; OkR ([e], g2)
-                             | None => OkR ([], g1) end;
+            do '(frx, g2) <- wrapped (S_ "from") fr g1;
             do '(k, g3) <- items (kids_of ch) g2;
             do e <- mk_elem name (attrs_of attribs) (p ++ frx ++ k); OkR (e, g3)
           else if str_eqb kind (S_ "content") || str_eqb kind (S_ "inline") then
@@ -139,12 +146,8 @@ Section Gen.
           else if str_eqb kind (S_ "element") then
             if str_eqb name (S_ "attachment") then
               let '(aname, g0) := attachment_name attribs g in
-              do '(hx, g1) <- match truthy_l h with
-                              | Some l => do '(k, g1) <- items l g0; do e <- mk_elem (S_ "heading") [] k; OkR ([e], g1)
-                              | None => OkR ([], g0) end;
-              do '(sx, g2) <- match truthy_l sh with
-                              | Some l => do '(k, g2) <- items l g1; do e <- mk_elem (S_ "subheading") [] k; OkR ([e], g2)
-                              | None => OkR ([], g1) end;
+              do '(hx, g1) <- wrapped (S_ "heading") (truthy_l h) g0;
+              do '(sx, g2) <- wrapped (S_ "subheading") (truthy_l sh) g1;
               do children <- match ch with Some l => OkR l | None => ErrR E_KEY end;
               do '(k, g3) <- items children (mkG (g_counters g2) (aname :: g_stack g2));
               do doc <- mk_elem (S_ "doc") (attrs_of attribs) (meta_for aname :: k);
@@ -154,7 +157,13 @@ Section Gen.
               do '(k, g1) <- items (kids_of ch) g;
               do e <- mk_elem name (attrs_of attribs) k; OkR (e, g1)
           else ErrR E_ATTR
-      end
+      end.
+  End OpenGen.
+
+  Fixpoint item_to_xml (fuel : nat) (d : dnode) (g : gstate) {struct fuel} : R (xml * gstate) :=
+    match fuel with
+    | O => ErrR E_FUEL
+    | S f => item_body (item_to_xml f) d g
     end.
 End Gen.
 
